@@ -140,7 +140,7 @@ def direct_scenario(ctx, rng, seed, replay):
 
     for _ in range(rng.randrange(3, 25)):
         dst = rng.choice(dsts)
-        pl = rng.choice(("random", "random", "d-eps", "d:before", "d:after", "d+eps", "same"))
+        pl = rng.choice(("random", "random", "d-eps", "d:before", "d:after", "d+eps", "same", "d-res"))
         rank = BEFORE
         d = close.get(dst)
         if ct == 0 or d is None or d < now:
@@ -151,10 +151,13 @@ def direct_scenario(ctx, rng, seed, replay):
         elif pl == "same":
             t = now
         else:
-            t, rank = {"d-eps": (d - EPS, BEFORE), "d:before": (d, BEFORE), "d:after": (d, AFTER), "d+eps": (d + EPS, BEFORE)}[pl]
+            # d-res: less than one clock resolution ahead of the close - the loop runs the window's timer in that iteration
+            t, rank = {"d-eps": (d - EPS, BEFORE), "d:before": (d, BEFORE), "d:after": (d, AFTER), "d+eps": (d + EPS, BEFORE),
+                       "d-res": (d - RES / 2, BEFORE)}[pl]
             if t < now:
                 t, rank, pl = now + 2.0 ** -9, BEFORE, "random"
-            ctx.count({"d:before": "request_at_close_before", "d:after": "request_at_close_after"}.get(pl, "request_close_adjacent"))
+            ctx.count({"d:before": "request_at_close_before", "d:after": "request_at_close_after",
+                       "d-res": "request_within_resolution_before_close"}.get(pl, "request_close_adjacent"))
             nontrivial = True
         n = rng.choice((1, 1, 1, 2, 3, 5, 16, 17, 40))
         if n > 15:
